@@ -557,6 +557,18 @@ CLAIMED["C15"]["text"] += (" Round 8 (gape): stage 3 also enumerates every fault
                             "(lean/SfModel/FaultsRaw.lean, byte-for-byte in stage 2) with write_raw_seek_failure_contained / read_raw_seek_failure_contained (lean/SfProps/C15RawRw.lean).")
 
 
+# ---- round 9 (worker wbridge3a): crash points of block-codec writers; XI DPCM whole-file round trip (appended) ----
+_R9_WBRIDGE3A = (" Round 9 (write-side bridge, block codecs with crash points): SnapJob / SnapFacts / snap_session_accepted (SfProofs/AbsWriteBridgeBlock3.lean: BlockFacts + per crash point "
+                 "frames = floorToBlock (N_k, B), read-back = that prefix of the finished file's, = the samples for a lossless pair); for every instance of the generic block writer the store between two calls "
+                 "is a prefix of the closed data region and holds N_k / spb whole blocks (SfProofs/AbsWriteBridgeBlock3Writer.lean, ...Codec.lean writer_snap_facts); g72x_snap_session_accepted and "
+                 "adpcm_snap_session_accepted (IMA WAV / W64 / AIFF, MS ADPCM, 1-2 channels, every rate; read side: front-to-back decoding as hypothesis Stream) in SfProps/C07Bridge3Snap.lean; the XI delta coders "
+                 "DPCM_16 / DPCM_8 at the byte level through the model's reader DpcmR (run_eq_one_call, decode_data, back_data: SfProofs/AbsWriteBridgeBlock3Dpcm.lean) and xi_session_accepted with crash points "
+                 "after any call, the job's files being the container model's closedBytes / snapshotBytes (xi_job_is_container) in SfProps/C07Bridge3.lean. vlib/blocksnap.py (C11): every block-coded format x "
+                 "SFC_UPDATE_HEADER_NOW inside a block, one frame before / on / behind a block edge.")
+for _p in ("C01", "C04", "C07", "C11"):
+    CLAIMED[_p]["text"] += _R9_WBRIDGE3A
+
+
 def main():
     checks = []
     for p in PROPS:
